@@ -136,7 +136,7 @@ SPEC = {
                  "C12_plain_map_laws", "C12_shrink_garbage_le_deleted", "C12_shrink_count_threshold_bounds_garbage",
                  "C12_rmap_index_invariant", "C12_rmap_refines_plain_map", "C12_rmap_pick_is_member", "C12_rmap_unique_entries",
                  "C12_heap_invariant", "C12_heap_pop_is_best", "C12_heap_remove_idempotent", "C12_heap_pop_in_priority_order",
-                 "C12_heap_refines_priority_multiset",
+                 "C12_heap_refines_priority_multiset", "C12_heap_depends_only_on_sign",
                  "C12_queue_bounded_fifo", "C12_queue_ring_invariant", "C12_ring_refines_window", "C12_ring_toSlice_last_min_n_cap",
                  "C12_stack_lifo"],
     "trusted_base": ["hand-written models Hive/Model/C12a*.lean of ds/shrinkingmap, ds/randommap, ds/generalheap + container/heap, ds/priorityqueue, runtime/timed/priority_queue.go, ds/queue, ds/ringbuffer, ds/stack, tied by differential execution with the white-box state compared after every operation (harness/c12) and by regenerated skeleton / source / type obligations (harness/c12/skel, Hive/Props/C12aSkel.lean)",
